@@ -152,6 +152,20 @@ def h1respLine : List String → String
       toString (if s ≥ 300 then s else 0) ++ " " ++ toHex (redirectLocation pfx p q)
     | _, _, _, _, _, _ => "bad-op"
   | ["clen", n] => clenLine n
+  | ["s1xx", status, hdrs] =>
+    match status.toNat?, parseHdrs hdrs with
+    | some st, some hs => "1 " ++ toHex (send1xx st hs)
+    | _, _ => "bad-op"
+  | ["cfile", api, ch, seed, flen, off, len] =>
+    match ch.toNat?, seed.toNat?, flen.toNat?, off.toNat?, len.toNat? with
+    | some c, some sd, some fl, some o, some l =>
+      let content := patBytes sd fl
+      let chunked := c ≠ 0
+      if api = "d" || api = "r" then "0 " ++ toHex (chunkAppend chunked content)
+      else if api = "R" then "0 " ++ toHex (chunkAppendFileRange chunked content o l)
+      else if api = "D" then "0 " ++ toHex (chunkAppendFdRange chunked content o l)
+      else "bad-op"
+    | _, _, _, _, _ => "bad-op"
   | _ => "bad-op"
 
 end Driver
